@@ -130,7 +130,7 @@ def case_strategy(draw, ctx):
     objs = []
     for k in range(draw(st.integers(1, 2))):
         typ = draw(st.sampled_from(["dipole_e", "dipole_e", "dipole_m", "plane", "gauss_det"]))
-        template = draw(st.sampled_from(["inside", "inside", "intersect", "intersect", "intersect", "free", "free"]))
+        template = draw(st.sampled_from(["intersect", "intersect", "free", "intersect", "free", "intersect", "free", "inside"]))
         o = {"type": typ, "name": f"{typ}{k}", "template": template}
         thin_axis = None
         if typ in ("plane", "gauss_det"):
@@ -141,20 +141,25 @@ def case_strategy(draw, ctx):
             o["pol_axis"] = draw(st.sampled_from(t))
         else:
             o["pol"] = draw(st.integers(0, 2))
+        rels = []
+        for a in range(3):
+            thin = a == thin_axis or typ.startswith("dipole")  # a point dipole occupies a single cell
+            if template == "inside":
+                rels.append("during")
+            elif template == "intersect":
+                rels.append(draw(st.sampled_from([r for r in INTERSECTING if not thin or r in THIN])))
+            else:
+                rels.append(draw(st.sampled_from(THIN if thin else ALLEN)))
+        if template != "inside" and all(r == "during" for r in rels):
+            # keep the strictly-inside class (finding F3) to the "inside" template so its share stays controlled
+            a = draw(st.integers(0, 2))
+            thin = a == thin_axis or typ.startswith("dipole")
+            rels[a] = draw(st.sampled_from([r for r in INTERSECTING if r != "during" and (not thin or r in THIN)]))
         iv = []
         for a in range(3):
             n, (d0, d1) = shape[a], dev[a]
-            thin = a == thin_axis or typ.startswith("dipole")  # a point dipole occupies a single cell
-            if template == "inside":
-                rel = "during"
-            elif template == "intersect":
-                rel = draw(st.sampled_from([r for r in INTERSECTING if not thin or r in THIN]))
-            else:
-                rel = draw(st.sampled_from(THIN if thin else ALLEN))
-            if thin:
-                iv.append(draw(thin_interval(n, d0, d1, rel)))
-            else:
-                iv.append(draw(allen_interval(n, d0, d1, rel)))
+            thin = a == thin_axis or typ.startswith("dipole")
+            iv.append(draw(thin_interval(n, d0, d1, rels[a]) if thin else allen_interval(n, d0, d1, rels[a])))
         o["iv"] = iv
         objs.append(o)
     return {"shape": shape, "device": dev, "param": param, "objects": objs}
